@@ -34,6 +34,9 @@ pub struct Case {
     /// blocking Read over the real block_on bridge); the schedule then only uses wakes that are legal under block_on
     #[serde(default)]
     pub cross_payload: bool,
+    /// async modes: every second poll runs on a fresh OS thread (task migration)
+    #[serde(default)]
+    pub migrate: bool,
 }
 
 #[derive(Clone, Copy)]
@@ -112,6 +115,7 @@ impl Prop for C06 {
             payload_buf_sizes,
             parts_into_payload: rng.chance(1, 2),
             cross_payload,
+            migrate: mode.is_async() && !cross_payload && rng.chance(1, 8),
         }
     }
 
@@ -150,8 +154,11 @@ impl Prop for C06 {
         src.set_track(true);
         let max_polls = case.spec.trace.len() as u64 * 3 + data.len() as u64 * 2 + 64;
         crate::drive::CROSS_PAYLOAD.with(|c| c.set(case.cross_payload));
+        crate::exec::MIGRATE.with(|m| m.set(case.migrate));
         let pr = run_parser_opt(&core, &src, case.mode, max_polls, true, &case.payload_buf_sizes, data.len() + 16, case.parts_into_payload);
         crate::drive::CROSS_PAYLOAD.with(|c| c.set(false));
+        crate::exec::MIGRATE.with(|m| m.set(false));
+        rep.count("executor_polls_on_a_fresh_thread", pr.exec.migrated_polls);
         if case.cross_payload {
             rep.count("payload_read_through_the_other_interface", 1);
         }
@@ -270,6 +277,9 @@ impl Prop for C06 {
         }
         if c.boundary_fault {
             out.push(Case { boundary_fault: false, ..c.clone() });
+        }
+        if c.migrate {
+            out.push(Case { migrate: false, ..c.clone() });
         }
         if c.cross_payload && !c.spec.trace.iter().any(|e| matches!(e, crate::wire::Ev::Pend { .. })) {
             out.push(Case { cross_payload: false, ..c.clone() });
